@@ -6,6 +6,7 @@
 //   gen/MemSig.v    (per function of the SIMD files: the ordered memory-touching constructs)
 // A file is rewritten only when its content changes.  Anything in a region the tool must interpret but does not
 // understand becomes `Unsupported "..."`, which makes the dependent theorem fail.
+mod rustlite;
 use proc_macro2::{TokenStream, TokenTree};
 use quote::ToTokens;
 use std::collections::BTreeSet;
@@ -718,6 +719,17 @@ fn main() {
                 continue;
             }
         };
+        if rel == "src/portable.rs" {
+            let v = rustlite::translate(
+                &file,
+                &rel,
+                "PortableHash",
+                &["new", "zipper_merge_and_add", "update", "permute", "permute_and_update", "module_reduction", "rotate_32_by",
+                  "update_lanes", "update_remainder", "finalize64", "finalize128", "finalize256"],
+                &["buffer.len", "buffer.as_slice", "remainder", "data_to_lanes"],
+            );
+            write_if_changed(&format!("{}/SrcPortable.v", out_dir), &v);
+        }
         let mut ff = FileFacts::default();
         for a in &file.attrs {
             if a.path().is_ident("doc") {
